@@ -1,0 +1,29 @@
+//go:build verif
+
+package local
+
+// Contracts for staging from the root (property C10): a file found in the
+// root by its digest (a local rename or copy) counts as staged only if, after
+// it was copied into a staging sink for the wanted path and the sink was
+// closed, the stager confirms that it contains the wanted (path, digest): the
+// content-addressed commit recomputed the digest of what was copied.
+// Comment-only file: compiled only under the "verif" build tag, contains no
+// code. The "//@" lines are read by /verif/govc.
+//
+// Ghost state: the question and the answer of the most recent
+// stager.Contains call.
+
+//@ ghost stagedok bool
+//@ ghost stagedpath string
+//@ ghost stagedbase int
+//@ ghost stagedoff int
+//@ ghost stagedlen int
+
+//@ func (*endpoint).stageFromRoot
+//@   requires e != nil
+//@   at call stager.Sink assert[wanted] arg0 == e.stager && arg1 == path
+//@   at call io.Copy assert[copy] arg0 == sink && arg1 == source
+//@   at call stager.Contains assert[wanted] arg0 == e.stager && arg1 == path && arg2 == digest
+//@   at call stager.Contains assert[aftercommit] closed[sink] && err == nil
+//@   ensures[verified] result ==> stagedok && stagedpath == path && stagedbase == base(digest) && stagedoff == off(digest) && stagedlen == len(digest)
+//@   ensures[verified] result ==> closed[sink]
